@@ -292,6 +292,13 @@ def r8(ctx):
     C06.share_failing_body(ctx, "C15.R8")
 
 
+def r9(ctx):
+    """"an entry is selected for download exactly when ...": the flag of a remote insert is computed from the policy the store
+    holds *now* for this document, on both ingress paths (Replica::insert_remote_entry and the reconciliation callback
+    evaluated, = C12.R3: policy-of(this document).matches(entry), nothing memoised in the open replica)"""
+    from . import C12
+    ctx.share("C15.R9", C12.r3, "C12.R3", keep=lambda k: "remote-insert" in k or "announce" in k, floor=3)
+
 def run(ctx):
     ctx.run_rule("C15.R1", r1)
     ctx.run_rule("C15.R2", r2)
@@ -301,3 +308,4 @@ def run(ctx):
     ctx.run_rule("C15.R6", r6)
     ctx.run_rule("C15.R7", r7)
     ctx.run_rule("C15.R8", r8)
+    ctx.run_rule("C15.R9", r9)
